@@ -525,6 +525,21 @@ class VecEval:
                         raise
                     return ret.value
                 return None
+        if fn in ('self.data.slice', 'self.data._data.slice') and 1 <= len(e.args) <= 2:
+            # (S17) pyarrow Array.slice(offset, length): a window clipped at the end of the array; a negative length is an error
+            off_ = self.expr(e.args[0])
+            ln_ = self.expr(e.args[1]) if len(e.args) > 1 else None
+            if not isinstance(off_, int) or (ln_ is not None and not isinstance(ln_, int)):
+                raise Unsupported('slice of the arrow data with non-integer bounds')
+            if ln_ is not None and ln_ < 0:
+                raise ValueError('Length must be non-negative')
+            if off_ < 0:
+                raise IndexError('Negative array slice offset')
+            return SelfSlice(min(off_, self.n), self.n if ln_ is None else min(off_ + ln_, self.n))
+        if isinstance(e.func, ast.Attribute) and e.func.attr == 'indices' and len(e.args) == 1:
+            sv_ = self.expr(e.func.value)
+            if isinstance(sv_, slice):
+                return tuple(sv_.indices(self.expr(e.args[0])))
         if fn == 'self.take' and getattr(self, 'inline_take', False) and self.func.cls is not None:
             ci, mem = self.P.lookup(self.func.cls, 'take')
             if mem is not None and mem[0] == 'func':
